@@ -86,6 +86,15 @@ def r1_provenance(rep, facts):
         if x.get('k') in ('call', 'mcall') and any(last_seg(c) == 'descend_path' for c in callee_all(x)):
             descend_pos = i if descend_pos is None else descend_pos
     ok = widen_pos is not None and (descend_pos is None or widen_pos < descend_pos)
+    # decided by evaluation where on_keyval can be evaluated on the model state (shared.keyval_model, also C14/R11): however the widening is written
+    # (a new range assigned, the end updated in place), the current table must span header start .. value end afterwards; the reading of the assignment
+    # above is the fallback
+    from .shared import keyval_model
+    outs = list(keyval_model(facts))
+    if outs and not any(isinstance(o, str) for _, o in outs) and any(o['ok'] for _, o in outs):
+        spans = {c: o['span'] for c, o in outs if o['ok']}
+        ok = all(v == ('range', 10, 34) for v in spans.values())
+        detail = f'on_keyval evaluated on the model state (table span 10..20, value span 30..35): the table spans {sorted(set(map(str, spans.values())))} afterwards'
     rep.check(R, 'state::ParseState::on_keyval|table-span', ok, detail, f'the section\'s span is not widened as current_table.span = <its own span>.start..<the value\'s span>.end before the key path is walked ({detail}): '
               f'values written with dotted keys fall outside their table\'s span', facts.loc(b))
     # array-of-tables span: first.start..last.end
